@@ -31,6 +31,9 @@ CHECKS = {
  "C04": dict(cat="model_checking", tech="TLA+ proof-tree / refutation-tree certificate specification (Mate.tla) checked by TLC; DTM rows for <=4-man roots",
    text="Every 'mate N' (exact or lower bound) printed by full-strength searches, the best move delivered with it, final 'mate -N' scores and the mate-in-one clause (final score mate 1 and a mating move at every completed depth) are judged by TLC: pawnless <=4-man roots against certified DTM rows; otherwise against proof trees / refutation trees / lost trees produced by an untrusted brute-force solver and validated node by node against the rule book (attacker nodes one legal move, defender nodes all of Legal(pos), leaves IsMate). Only a TLC-validated refutation is a violation; undecided claims are counted.",
    note="Trusted: TLC, Chess.tla/Mate.tla. Untrusted: harness/h_mate.cpp (its certificates are checked). Roots: solver-harvested forced mates <=2 (quick) / <=3 (thorough), harvested mate-in-one families (castle/ep/promotion/discovered/double check), decisive 3/4-man placements."),
+ "C14": dict(cat="model_checking", tech="TLA+ session-state specification (Session.tla: which caches outlive a search, Clear Hash contract) + TLC validation of two-process result traces",
+   text="spec/Session.tla models the engine-lifetime state (hash contents, generation counter, history tables, resident tablebase, evaluation cache, option deltas) and the contract of Clear Hash. Process A replays a seeded prior session (1..40 searches of all limit kinds, ucinewgame, reverted option changes, tablebase roots, related positions, fixed Contempt/Hash), then Clear Hash and a probe search; a fresh process B runs the probe twice. TLC decides from the command trace that the states are Fresh with equal options and then requires identical best move, final score, PV and node count (A vs B, B vs B2).",
+   note="Trusted: TLC, Session.tla, python driver. Threads=1; wall-clock driven periodic info lines are excluded from the comparison."),
 }
 
 NOT_APPLICABLE = {
